@@ -83,6 +83,9 @@ def build_arrays(inp: dict):
     if order == "F":
         pred = np.asfortranarray(pred)
         ref = np.asfortranarray(ref)
+    if inp.get("byteorder") and dt.itemsize > 1:
+        pred = pred.astype(dt.newbyteorder(inp["byteorder"]))
+        ref = ref.astype(dt.newbyteorder(inp["byteorder"]))
     if inp.get("poison"):
         # a malformed pair (shape mismatch): the evaluation of this subject raises
         ref = ref[:-1].copy()
